@@ -230,11 +230,19 @@ def coq_eval(pid, imports, term):
 # ----------------------------------------------------------------------------- findings
 
 def load_findings(pid):
-    p = os.path.join(VERIF, 'known_findings.json')
-    if not os.path.exists(p):
-        return []
-    data = json.load(open(p))
-    return [f for f in data.get('findings', []) if f.get('property') == pid]
+    """open/fixed findings of a property: known_findings.json plus per-property fragments findings.d/<pid>.json
+    (fragments are merged into known_findings.json by harness/merge_findings.py when a property is integrated)"""
+    out, seen = [], set()
+    paths = [os.path.join(VERIF, 'known_findings.json'), os.path.join(VERIF, 'findings.d', pid + '.json')]
+    for p in paths:
+        if not os.path.exists(p):
+            continue
+        data = json.load(open(p))
+        for f in data.get('findings', []):
+            if f.get('property') == pid and f['id'] not in seen:
+                seen.add(f['id'])
+                out.append(f)
+    return out
 
 
 # ----------------------------------------------------------------------------- framework
@@ -407,7 +415,10 @@ def main(prop, argv=None):
     gate = source_gate()
     if gate:
         broken.append('source gate: ' + '; '.join(gate))
-    ok, blog = (True, '') if a.no_build else coq_build()
+    targets = None
+    if prop.props_file:
+        targets = ['theories/' + prop.props_file + 'o'] + ['theories/' + m.replace('.', '/') + '.vo' for m in prop.imports]
+    ok, blog = (True, '') if a.no_build else coq_build(targets)
     thms = []
     if not ok:
         broken.append('coq build failed: ' + blog[-1500:])
